@@ -88,10 +88,11 @@ class ActV:
 
 
 class StrV:
-    __slots__ = ("t",)
+    __slots__ = ("t", "opts")
 
-    def __init__(s, t):
+    def __init__(s, t, opts=None):
         s.t = t
+        s.opts = opts        # [(condition, python str)] when the value is one of finitely many literals
 
 
 class Exc:
@@ -365,7 +366,12 @@ class HeapExec(NumExec):
         if isinstance(a, SeqV) and isinstance(b, SeqV):
             return SeqV(z3.If(c, a.q, b.q), a.kind)
         if isinstance(a, (StrV, str)) and isinstance(b, (StrV, str)):
-            return StrV(z3.If(c, s.unwrap("str", a), s.unwrap("str", b)))
+            oa = [(z3.BoolVal(True), a)] if isinstance(a, str) else a.opts
+            ob = [(z3.BoolVal(True), b)] if isinstance(b, str) else b.opts
+            opts = None
+            if oa is not None and ob is not None:
+                opts = [(z3.And(c, g), t) for g, t in oa] + [(z3.And(z3.Not(c), g), t) for g, t in ob]
+            return StrV(z3.If(c, s.unwrap("str", a), s.unwrap("str", b)), opts)
         if a is None and isinstance(b, RefV):
             return RefV(z3.If(c, NONE, b.r), b.cls)
         if b is None and isinstance(a, RefV):
@@ -383,8 +389,26 @@ class HeapExec(NumExec):
             c = s.class_const(e.value.id, e.attr)
             if c is not NotImplemented:
                 return c
+        # enum members such as WeightedDefuzzifier.Type.Tsukamoto -> their index in declaration order;  Class.method.__name__ -> the name
+        dotted = ast.unparse(e)
+        parts = dotted.split(".")
+        if len(parts) >= 3 and parts[0] not in p.env and all(x.isidentifier() for x in parts):
+            if parts[-1] == "__name__" and s.src.module_of_class(parts[0]) and s.src.has_func(s.src.module_of_class(parts[0]), ".".join(parts[:-1])):
+                return parts[-2]
+            m = s.src.module_of_class(parts[0])
+            cq = ".".join(parts[:-1])
+            if m and s.src.has_cls(m, cq):
+                members = s.enum_members(m, cq)
+                if parts[-1] in members:
+                    return members.index(parts[-1])
         base = s.ev(p, e.value)
         return s.attr_of(p, base, e.attr, e)
+
+    def enum_members(s, module, cq):
+        c = s.src.cls(module, cq)
+        if not any("Enum" in ast.unparse(b) for b in c.bases):
+            return []
+        return [n.targets[0].id for n in c.body if isinstance(n, ast.Assign) and len(n.targets) == 1 and isinstance(n.targets[0], ast.Name)]
 
     def class_const(s, cname, attr):
         m = s.src.module_of_class(cname)
@@ -517,6 +541,20 @@ class HeapExec(NumExec):
     # ------------------------------------------------------------------ calls
     def ev_Call(s, p, e):
         f = e.func
+        # obj.__getattribute__(name)(args): dynamic method selection among finitely many literal names
+        if isinstance(f, ast.Call) and isinstance(f.func, ast.Attribute) and f.func.attr == "__getattribute__" and len(f.args) == 1:
+            recv = s.ev(p, f.func.value)
+            name = s.ev(p, f.args[0])
+            args = [s.ev(p, a) for a in e.args]
+            if isinstance(name, str):
+                return s.method_call(p, recv, name, args, {}, e)
+            if isinstance(name, StrV) and name.opts:
+                val = None
+                for g, nm in name.opts:
+                    v = s.method_call(p, recv, nm, args, {}, e)
+                    val = v if val is None else s.merge(g, v, val, e)
+                return val
+            raise Unsupported(f"__getattribute__ with a non-literal name at line {e.lineno}")
         if isinstance(f, ast.Name):
             n = f.id
             if n == "isinstance":
